@@ -722,7 +722,15 @@ def _unroll_literal_loops(block, module):
   cur = list(block)
   while i < len(cur):
     st = cur[i]
-    if isinstance(st, ast.For) and not st.orelse and not any(isinstance(x, (ast.Break, ast.Continue)) for x in walk_no_nested(st)):
+    jumps = isinstance(st, ast.For) and (bool(st.orelse) or any(isinstance(x, (ast.Break, ast.Continue)) for x in walk_no_nested(st)))
+    if isinstance(st, ast.For) and jumps:
+      un = _unroll_with_jumps(cur, i, module)
+      if un is not None:
+        cur[i:i + 1] = un
+        out = cur
+        i += len(un)
+        continue
+    if isinstance(st, ast.For) and not jumps:
       elts = _literal_table(cur, i, module)
       tnames = [x for x in ast.walk(st.target) if isinstance(x, ast.Name)]
       body_stores = {x.id for b in st.body for x in ast.walk(b) if isinstance(x, ast.Name) and isinstance(x.ctx, (ast.Store, ast.Del))}
@@ -752,6 +760,103 @@ def _unroll_literal_loops(block, module):
           i += len(copies)
           continue
     i += 1
+  return out
+
+
+_UNROLL_K = [0]
+
+
+def _unroll_with_jumps(block, i, module):
+  """the same for a body with `continue` / `break` (of this loop) and an `else` clause:
+     row 1:  BODY with continue -> end of this row, break -> __brkN = True and end of this row
+     row k:  if not __brkN: BODY ...
+     else :  if not __brkN: ELSE
+  The rows are put in tail form with the machinery used for helper returns (`continue` plays the part of `return`)."""
+  st = block[i]
+  elts = _literal_table(block, i, module)
+  if elts is None:
+    return None
+  tnames = {x.id for x in ast.walk(st.target) if isinstance(x, ast.Name)}
+  body_stores = {x.id for b in st.body for x in ast.walk(b) if isinstance(x, ast.Name) and isinstance(x.ctx, (ast.Store, ast.Del))}
+  later = {x.id for b in block[i + 1:] + list(st.orelse) for x in ast.walk(b) if isinstance(x, ast.Name) and isinstance(x.ctx, ast.Load)}
+  if not tnames or (tnames & body_stores) or (tnames & later):
+    return None
+  # jumps that belong to inner loops stay; a return inside the body cannot be expressed -> give up
+  for x in walk_no_nested(st, include_self=False):
+    if isinstance(x, ast.Return):
+      return None
+  _UNROLL_K[0] += 1
+  flag = '__brk%d' % _UNROLL_K[0]
+  tmp = '__row%d' % _UNROLL_K[0]
+  has_break = [False]
+
+  def own(x):
+    for y in walk_no_nested(st, include_self=False):
+      if isinstance(y, (ast.For, ast.While)) and any(z is x for z in ast.walk(y)):
+        return False
+    return True
+
+  class J(ast.NodeTransformer):
+    def visit_Continue(self, n):
+      return ast.copy_location(ast.Return(value=None), n) if own_map.get(id(n), True) else n
+
+    def visit_Break(self, n):
+      if not own_map.get(id(n), True):
+        return n
+      has_break[0] = True
+      return [ast.copy_location(ast.Assign(targets=[ast.Name(id=flag, ctx=ast.Store())], value=ast.Constant(value=True)), n),
+              ast.copy_location(ast.Return(value=None), n)]
+
+    def visit_For(self, n):
+      return n          # jumps of inner loops are theirs
+
+    def visit_While(self, n):
+      return n
+
+    def visit_FunctionDef(self, n):
+      return n
+  rows = []
+  for e in elts:
+    sub = _match_target(st.target, e)
+    if sub is None:
+      return None
+    body = [_clone(b) for b in st.body]
+    own_map = {}
+    class S(ast.NodeTransformer):
+      def visit_Name(self, n, sub=sub):
+        if n.id in sub and isinstance(n.ctx, ast.Load):
+          return ast.copy_location(_clone(sub[n.id]), n)
+        return n
+    body = [S().visit(b) for b in body]
+    nb = []
+    for b in body:
+      r = J().visit(b)
+      nb.extend(r if isinstance(r, list) else [r])
+    tail = _tailify(nb, tmp)
+    if tail is None:
+      return None
+    tail = _drop_result(tail, tmp)
+    rows.append(tail or [ast.Pass()])
+  out = []
+  init = ast.Assign(targets=[ast.Name(id=flag, ctx=ast.Store())], value=ast.Constant(value=False))
+  out.append(init)
+  for k, row in enumerate(rows):
+    if k == 0 or not has_break[0]:
+      out.extend(row)
+    else:
+      out.append(ast.If(test=ast.UnaryOp(op=ast.Not(), operand=ast.Name(id=flag, ctx=ast.Load())), body=row, orelse=[]))
+  if st.orelse:
+    els = [_clone(b) for b in st.orelse]
+    if has_break[0]:
+      out.append(ast.If(test=ast.UnaryOp(op=ast.Not(), operand=ast.Name(id=flag, ctx=ast.Load())), body=els, orelse=[]))
+    else:
+      out.extend(els)
+  for o in out:
+    ast.copy_location(o, st)
+    for x in ast.walk(o):
+      if not hasattr(x, 'lineno') and isinstance(x, (ast.expr, ast.stmt)):
+        ast.copy_location(x, st)
+    ast.fix_missing_locations(o)
   return out
 
 
